@@ -97,7 +97,7 @@ def main():
 
         print("Saving in ", foldername)
 
-    ti = t//constants.dt
+    ti = int(t//constants.dt)
     tN = int(tEnd//constants.dt)
 
     # --------------------------
